@@ -26,6 +26,8 @@ func main() {
 		cmdCheck(os.Args[2:])
 	case "selftest":
 		cmdSelftest(os.Args[2:])
+	case "replay":
+		cmdReplay(os.Args[2:])
 	default:
 		fmt.Fprintln(os.Stderr, "unknown command", os.Args[1])
 		os.Exit(2)
@@ -172,3 +174,24 @@ func printSummary(ex *Explorer, d time.Duration, verbose bool) {
 }
 
 func cmdSelftest(args []string) { fmt.Println("selftest: not built yet"); os.Exit(2) }
+
+// cmdReplay re-runs a stored counterexample directory (written next to a VIOLATION line) natively against /repo.
+func cmdReplay(args []string) {
+	fs := flag.NewFlagSet("replay", flag.ExitOnError)
+	dir := fs.String("dir", "", "replay directory")
+	repo := fs.String("repo", "", "repository (default $VERIF_REPO or /repo)")
+	verifDir := fs.String("verif", "/verif", "verif directory")
+	fs.Parse(args)
+	if *repo == "" {
+		*repo = os.Getenv("VERIF_REPO")
+		if *repo == "" {
+			*repo = "/repo"
+		}
+	}
+	out, err := ReplayStored(*repo, *verifDir+"/harness", *dir)
+	fmt.Print(out)
+	if err != nil {
+		fmt.Fprintln(os.Stderr, err)
+		os.Exit(2)
+	}
+}
